@@ -1,2 +1,954 @@
-import Splipy.Model.Object
-/-! Property theorems for C02 (under construction). -/
+import Splipy.Lemmas.TensorEvalDefault
+import Splipy.Lemmas.TensorEvalPeriodic
+
+/-!
+# Property C02: object evaluation equals the tensor-product NURBS definition
+
+`o.evaluate tol params tensor` is the executable model of `SplineObject.evaluate(*params,
+tensor=…)` before the final `squeeze` reshape (`tol` = `state.knot_tolerance`, every parameter is a
+list; a Python scalar is the one-element list).  The result is a `Tensor` (shape + flat C-order
+data); `t.get k` reads flat index `k`, so entry `(i₁,i₂,c)` of an `m₁ × m₂ × nc` result is
+`t.get ((i₁*m₂ + i₂)*nc + c)`, and the control point `P[j₁,j₂][c]` of an `n₁ × n₂ × nc` net is
+`o.cps.get ((j₁*n₂ + j₂)*nc + c)`.
+
+Vocabulary (defined in `Splipy/Lemmas/TensorEvalObj.lean`, `…/EvalRow.lean`):
+* `b.rowVal tol u j = (b.evaluate tol (snap b tol u) 0 true).getD j 0` — the number the code uses for
+  basis function `j` at the parameter `u` (`_validate_domain` snaps, then `b.evaluate` is called).
+* `b.specRow u j` — the specification value: `B (effSide b u true) b.kn (order-1) j u` for a
+  non-periodic basis (`C02_specRow_nonperiodic`), the sum of the wrapped images
+  `Σ_{i ≡ j mod n} B … i (b.wrap u)` for a periodic one (`C02_specRow_periodic`).
+* `b.Admissible tol u` — `u` is exact (`b.ExactAt tol u`: a knot, or at least `tol` away from every
+  knot), lies in `[start, stop]` if `b` is non-periodic, and `b.wrap u` is exact if `b` is periodic.
+* `o.OutOfDomain tol params` — some non-periodic direction has a snapped parameter outside
+  `[start, stop]` (spelled out in `C02_outside_raises`).
+-/
+
+open Splipy Splipy.Tensor
+
+variable {K : Type} [Field K] [LinearOrder K] [IsStrictOrderedRing K] [FloorRing K]
+
+/-! ## 1. L11 — index algebra of the array model -/
+
+omit [LinearOrder K] [IsStrictOrderedRing K] [FloorRing K] in
+/-- Read-back of `build3`: flat index `(a*m + r)*inner + i` holds `f a r i`. -/
+theorem C02_build3_readback (shape : List ℕ) (ax m : ℕ) (f : ℕ → ℕ → ℕ → K) {a r i : ℕ}
+    (ha : a < prod (shape.take ax)) (hr : r < m) (hi : i < prod (shape.drop (ax + 1))) :
+    (build3 shape ax m f).get ((a * m + r) * prod (shape.drop (ax + 1)) + i) = f a r i :=
+  build3_readback shape ax m f ha hr hi
+
+omit [LinearOrder K] [IsStrictOrderedRing K] [FloorRing K] in
+/-- One-axis contraction (`np.tensordot(M, t, axes=(1, ax))` + `transpose_fix`): shape, data size
+and entry formula `(applyAxis M t ax)[a, r, i] = Σ_j M[r][j] · t[a, j, i]`. -/
+theorem C02_applyAxis (M : Mat K) (t : Tensor K) (ax : ℕ) (h : ax < t.shape.length) :
+    (applyAxis M t ax).shape = t.shape.set ax M.size ∧
+    (applyAxis M t ax).data.size = prod (applyAxis M t ax).shape ∧
+    ∀ a r i, a < prod (t.shape.take ax) → r < M.size → i < prod (t.shape.drop (ax + 1)) →
+      (applyAxis M t ax).at3 ax a r i
+        = ∑ j ∈ Finset.range (t.shape.getD ax 1), (M.getD r #[]).getD j 0 * t.at3 ax a j i :=
+  ⟨applyAxis_shape M t ax, applyAxis_wf M t ax h,
+    fun _ _ _ ha hr hi => applyAxis_at3 M t ax h ha hr hi⟩
+
+/-! ## 2. `C02_tensor_eval` — the module-level `evaluate(bases, cps, tensor=True)` -/
+
+omit [LinearOrder K] [IsStrictOrderedRing K] [FloorRing K] in
+/-- Curves: `result[i₁, c] = Σ_{j₁} N₁[i₁][j₁] · P[j₁, c]`. -/
+theorem C02_tensor_eval_curve (N1 : Mat K) (cps : Tensor K) {n1 nc : ℕ}
+    (hs : cps.shape = [n1, nc]) :
+    (Obj.contractGrid [N1] cps).shape = [N1.size, nc] ∧
+    (Obj.contractGrid [N1] cps).data.size = N1.size * nc ∧
+    ∀ i1 c, i1 < N1.size → c < nc →
+      (Obj.contractGrid [N1] cps).get (i1 * nc + c)
+        = ∑ j1 ∈ Finset.range n1, (N1.getD i1 #[]).getD j1 0 * cps.get (j1 * nc + c) :=
+  ⟨(contractGrid1_size N1 cps hs).1, (contractGrid1_size N1 cps hs).2,
+    fun _ _ h1 hc => contractGrid1_get N1 cps hs h1 hc⟩
+
+omit [LinearOrder K] [IsStrictOrderedRing K] [FloorRing K] in
+/-- Surfaces: `result[i₁, i₂, c] = Σ_{j₁} Σ_{j₂} N₁[i₁][j₁] · N₂[i₂][j₂] · P[j₁, j₂, c]`. -/
+theorem C02_tensor_eval_surface (N1 N2 : Mat K) (cps : Tensor K) {n1 n2 nc : ℕ}
+    (hs : cps.shape = [n1, n2, nc]) :
+    (Obj.contractGrid [N1, N2] cps).shape = [N1.size, N2.size, nc] ∧
+    (Obj.contractGrid [N1, N2] cps).data.size = N1.size * N2.size * nc ∧
+    ∀ i1 i2 c, i1 < N1.size → i2 < N2.size → c < nc →
+      (Obj.contractGrid [N1, N2] cps).get ((i1 * N2.size + i2) * nc + c)
+        = ∑ j1 ∈ Finset.range n1, ∑ j2 ∈ Finset.range n2,
+            (N1.getD i1 #[]).getD j1 0 * (N2.getD i2 #[]).getD j2 0
+              * cps.get ((j1 * n2 + j2) * nc + c) :=
+  ⟨(contractGrid2_size N1 N2 cps hs).1, (contractGrid2_size N1 N2 cps hs).2,
+    fun _ _ _ h1 h2 hc => contractGrid2_get N1 N2 cps hs h1 h2 hc⟩
+
+omit [LinearOrder K] [IsStrictOrderedRing K] [FloorRing K] in
+/-- Volumes: `result[i₁,i₂,i₃,c] = ΣΣΣ N₁[i₁][j₁]·N₂[i₂][j₂]·N₃[i₃][j₃]·P[j₁,j₂,j₃,c]`. -/
+theorem C02_tensor_eval_volume (N1 N2 N3 : Mat K) (cps : Tensor K) {n1 n2 n3 nc : ℕ}
+    (hs : cps.shape = [n1, n2, n3, nc]) :
+    (Obj.contractGrid [N1, N2, N3] cps).shape = [N1.size, N2.size, N3.size, nc] ∧
+    (Obj.contractGrid [N1, N2, N3] cps).data.size = N1.size * N2.size * N3.size * nc ∧
+    ∀ i1 i2 i3 c, i1 < N1.size → i2 < N2.size → i3 < N3.size → c < nc →
+      (Obj.contractGrid [N1, N2, N3] cps).get (((i1 * N2.size + i2) * N3.size + i3) * nc + c)
+        = ∑ j1 ∈ Finset.range n1, ∑ j2 ∈ Finset.range n2, ∑ j3 ∈ Finset.range n3,
+            (N1.getD i1 #[]).getD j1 0 * (N2.getD i2 #[]).getD j2 0 * (N3.getD i3 #[]).getD j3 0
+              * cps.get (((j1 * n2 + j2) * n3 + j3) * nc + c) :=
+  ⟨(contractGrid3_size N1 N2 N3 cps hs).1, (contractGrid3_size N1 N2 N3 cps hs).2,
+    fun _ _ _ _ h1 h2 h3 hc => contractGrid3_get N1 N2 N3 cps hs h1 h2 h3 hc⟩
+
+/-! ## 5. `C02_pointwise_is_diagonal` — `tensor=False` (the `einsum` form) -/
+
+omit [LinearOrder K] [IsStrictOrderedRing K] [FloorRing K] in
+/-- Curves: row `i` of the pointwise form is row `i` of the grid form. -/
+theorem C02_pointwise_is_diagonal_curve (N1 : Mat K) (cps : Tensor K) (m : ℕ) {n1 nc : ℕ}
+    (hs : cps.shape = [n1, nc]) {i c : ℕ} (hi : i < m) (h1 : i < N1.size) (hc : c < nc) :
+    (Obj.contractPointwise [N1] cps m).get (i * nc + c)
+      = (Obj.contractGrid [N1] cps).get (i * nc + c) := by
+  rw [contractPointwise1_get N1 cps m hs hi hc, contractGrid1_get N1 cps hs h1 hc]
+
+omit [LinearOrder K] [IsStrictOrderedRing K] [FloorRing K] in
+/-- Surfaces: row `i` of the pointwise form is the grid entry `(i, i)`. -/
+theorem C02_pointwise_is_diagonal_surface (N1 N2 : Mat K) (cps : Tensor K) (m : ℕ)
+    {n1 n2 nc : ℕ} (hs : cps.shape = [n1, n2, nc]) {i c : ℕ} (hi : i < m) (h1 : i < N1.size)
+    (h2 : i < N2.size) (hc : c < nc) :
+    (Obj.contractPointwise [N1, N2] cps m).get (i * nc + c)
+      = (Obj.contractGrid [N1, N2] cps).get ((i * N2.size + i) * nc + c) := by
+  rw [contractPointwise2_get N1 N2 cps m hs hi hc, contractGrid2_get N1 N2 cps hs h1 h2 hc]
+
+omit [LinearOrder K] [IsStrictOrderedRing K] [FloorRing K] in
+/-- Volumes: row `i` of the pointwise form is the grid entry `(i, i, i)`. -/
+theorem C02_pointwise_is_diagonal_volume (N1 N2 N3 : Mat K) (cps : Tensor K) (m : ℕ)
+    {n1 n2 n3 nc : ℕ} (hs : cps.shape = [n1, n2, n3, nc]) {i c : ℕ} (hi : i < m)
+    (h1 : i < N1.size) (h2 : i < N2.size) (h3 : i < N3.size) (hc : c < nc) :
+    (Obj.contractPointwise [N1, N2, N3] cps m).get (i * nc + c)
+      = (Obj.contractGrid [N1, N2, N3] cps).get (((i * N2.size + i) * N3.size + i) * nc + c) := by
+  rw [contractPointwise3_get N1 N2 N3 cps m hs hi hc,
+    contractGrid3_get N1 N2 N3 cps hs h1 h2 h3 hc]
+
+omit [LinearOrder K] [IsStrictOrderedRing K] [FloorRing K] in
+/-- The pointwise form has shape `m × nc` and the explicit entries
+`Σ_{j₁} Σ_{j₂} N₁[i][j₁]·N₂[i][j₂]·P[j₁,j₂,c]` (surfaces). -/
+theorem C02_pointwise_eval_surface (N1 N2 : Mat K) (cps : Tensor K) (m : ℕ) {n1 n2 nc : ℕ}
+    (hs : cps.shape = [n1, n2, nc]) :
+    (Obj.contractPointwise [N1, N2] cps m).shape = [m, nc] ∧
+    ∀ i c, i < m → c < nc →
+      (Obj.contractPointwise [N1, N2] cps m).get (i * nc + c)
+        = ∑ j1 ∈ Finset.range n1, ∑ j2 ∈ Finset.range n2,
+            (N1.getD i #[]).getD j1 0 * (N2.getD i #[]).getD j2 0
+              * cps.get ((j1 * n2 + j2) * nc + c) :=
+  ⟨by rw [contractPointwise_shape, hs]; rfl,
+    fun _ _ hi hc => contractPointwise2_get N1 N2 cps m hs hi hc⟩
+
+/-- Object level, curves (rational or not): `evaluate(us, tensor=False)` succeeds together with
+`evaluate(us)` and has the same entries. -/
+theorem C02_pointwise_is_diagonal_obj_curve {o : Obj K} {b1 : Basis K} (hb : o.bases = #[b1])
+    {n1 nc : ℕ} (hs : o.cps.shape = [n1, nc]) (hnc : o.rational = true → 1 ≤ nc) (tol : K)
+    (us : List K) (hdom : ¬ o.OutOfDomain tol [us]) :
+    ∃ rg rp, o.evaluate tol [us] true = .ok rg ∧ o.evaluate tol [us] false = .ok rp ∧
+      rp.shape = [us.length, o.dimension] ∧ rp.data.size = us.length * o.dimension ∧
+      ∀ i c, i < us.length → c < o.dimension →
+        rp.get (i * o.dimension + c) = rg.get (i * o.dimension + c) :=
+  Obj.evaluate1_pointwise_diag hb hs hnc tol us hdom
+
+/-- Object level, surfaces (rational or not): point `i` of `evaluate(us, vs, tensor=False)` is the
+grid point `(i, i)` of `evaluate(us, vs)`. -/
+theorem C02_pointwise_is_diagonal_obj_surface {o : Obj K} {b1 b2 : Basis K}
+    (hb : o.bases = #[b1, b2]) {n1 n2 nc : ℕ} (hs : o.cps.shape = [n1, n2, nc])
+    (hnc : o.rational = true → 1 ≤ nc) (tol : K) (us vs : List K)
+    (hlen : vs.length = us.length) (hdom : ¬ o.OutOfDomain tol [us, vs]) :
+    ∃ rg rp, o.evaluate tol [us, vs] true = .ok rg ∧ o.evaluate tol [us, vs] false = .ok rp ∧
+      rp.shape = [us.length, o.dimension] ∧ rp.data.size = us.length * o.dimension ∧
+      ∀ i c, i < us.length → c < o.dimension →
+        rp.get (i * o.dimension + c) = rg.get ((i * vs.length + i) * o.dimension + c) :=
+  Obj.evaluate2_pointwise_diag hb hs hnc tol us vs hlen hdom
+
+/-- Object level, volumes (rational or not). -/
+theorem C02_pointwise_is_diagonal_obj_volume {o : Obj K} {b1 b2 b3 : Basis K}
+    (hb : o.bases = #[b1, b2, b3]) {n1 n2 n3 nc : ℕ} (hs : o.cps.shape = [n1, n2, n3, nc])
+    (hnc : o.rational = true → 1 ≤ nc) (tol : K) (us vs ws : List K)
+    (hlen2 : vs.length = us.length) (hlen3 : ws.length = us.length)
+    (hdom : ¬ o.OutOfDomain tol [us, vs, ws]) :
+    ∃ rg rp, o.evaluate tol [us, vs, ws] true = .ok rg ∧
+      o.evaluate tol [us, vs, ws] false = .ok rp ∧
+      rp.shape = [us.length, o.dimension] ∧ rp.data.size = us.length * o.dimension ∧
+      ∀ i c, i < us.length → c < o.dimension →
+        rp.get (i * o.dimension + c)
+          = rg.get (((i * vs.length + i) * ws.length + i) * o.dimension + c) :=
+  Obj.evaluate3_pointwise_diag hb hs hnc tol us vs ws hlen2 hlen3 hdom
+
+/-! ## 6. `C02_outside_raises` — error behaviour (any parametric dimension) -/
+
+/-- `evaluate` raises `ValueError` exactly when (`tensor=False` and
+`len({len(p) for p in params}) != 1`) or some non-periodic direction has a snapped parameter
+outside `[start, end]`.  Periodic directions never raise. -/
+theorem C02_outside_raises (o : Obj K) (tol : K) (params : List (List K)) (tensor : Bool) :
+    o.evaluate tol params tensor = .error .value ↔
+      (tensor = false ∧ (params.map List.length).eraseDups.length ≠ 1) ∨
+      (∃ bp ∈ List.zip o.bases.toList params, bp.1.periodic < 0 ∧
+        ∃ t ∈ bp.2, snap bp.1 tol t < bp.1.start ∨ bp.1.stop < snap bp.1 tol t) := by
+  constructor
+  · intro h
+    by_contra hc
+    rw [not_or] at hc
+    rw [o.evaluate_ok tol params tensor hc.1 hc.2] at h
+    cases h
+  · rintro (h | h)
+    · exact o.evaluate_error_len tol params tensor h
+    · exact o.evaluate_error_dom tol params tensor h
+
+/-- … and otherwise it returns a value (no other exception is possible), namely `evalCore` of the
+snapped parameters. -/
+theorem C02_ok_otherwise (o : Obj K) (tol : K) (params : List (List K)) (tensor : Bool)
+    (h1 : ¬ (tensor = false ∧ (params.map List.length).eraseDups.length ≠ 1))
+    (h2 : ¬ o.OutOfDomain tol params) :
+    o.evaluate tol params tensor = .ok (o.evalCore tol (o.snapParams tol params) tensor) :=
+  o.evaluate_ok tol params tensor h1 h2
+
+/-- The only exception `evaluate` can raise is `ValueError`. -/
+theorem C02_error_is_value (o : Obj K) (tol : K) (params : List (List K)) (tensor : Bool)
+    (e : PyErr) (h : o.evaluate tol params tensor = .error e) : e = .value := by
+  by_cases h1 : tensor = false ∧ (params.map List.length).eraseDups.length ≠ 1
+  · rw [o.evaluate_error_len tol params tensor h1] at h
+    cases h; rfl
+  · by_cases h2 : o.OutOfDomain tol params
+    · rw [o.evaluate_error_dom tol params tensor h2] at h
+      cases h; rfl
+    · rw [o.evaluate_ok tol params tensor h1 h2] at h
+      cases h
+
+omit [Field K] [LinearOrder K] [IsStrictOrderedRing K] [FloorRing K] in
+/-- Meaning of the length test: the set of lengths has one element iff there is at least one
+parameter list and all lists have the same length. -/
+theorem C02_length_test (params : List (List K)) :
+    (params.map List.length).eraseDups.length = 1 ↔
+      params ≠ [] ∧ ∀ p ∈ params, ∀ q ∈ params, p.length = q.length := by
+  rw [eraseDups_length_eq_one_iff]
+  constructor
+  · rintro ⟨h1, h2⟩
+    refine ⟨fun h => h1 (by rw [h]; rfl), fun p hp q hq => ?_⟩
+    exact h2 _ (List.mem_map.mpr ⟨p, hp, rfl⟩) _ (List.mem_map.mpr ⟨q, hq, rfl⟩)
+  · rintro ⟨h1, h2⟩
+    refine ⟨fun h => h1 (List.map_eq_nil_iff.mp h), ?_⟩
+    intro a ha b hb
+    obtain ⟨p, hp, rfl⟩ := List.mem_map.mp ha
+    obtain ⟨q, hq, rfl⟩ := List.mem_map.mp hb
+    exact h2 p hp q hq
+
+/-- An object all of whose directions are periodic accepts every real parameter. -/
+theorem C02_periodic_accepts_any_real (o : Obj K) (tol : K) (params : List (List K))
+    (hper : ∀ b ∈ o.bases.toList, 0 ≤ b.periodic) :
+    ∃ res, o.evaluate tol params true = .ok res := by
+  refine ⟨_, o.evaluate_ok tol params true (by simp) ?_⟩
+  rintro ⟨bp, hbp, h, -⟩
+  have := hper bp.1 (List.of_mem_zip hbp).1
+  omega
+
+/-! ## 2'. `C02_tensor_eval` at object level: result entries in terms of the code's basis rows
+
+No validity assumption: for ANY bases, tolerance and parameters that pass the domain check. -/
+
+/-- Non-rational curve. -/
+theorem C02_tensor_eval_obj_curve {o : Obj K} {b1 : Basis K} (hb : o.bases = #[b1])
+    {n1 nc : ℕ} (hs : o.cps.shape = [n1, nc]) (hr : o.rational = false) (tol : K)
+    (us : List K) (hdom : ¬ o.OutOfDomain tol [us]) :
+    ∃ res, o.evaluate tol [us] true = .ok res ∧
+      res.shape = [us.length, nc] ∧ res.data.size = us.length * nc ∧
+      ∀ i1 c, i1 < us.length → c < nc →
+        res.get (i1 * nc + c)
+          = ∑ j1 ∈ Finset.range n1, b1.rowVal tol (us.getD i1 0) j1 * o.cps.get (j1 * nc + c) :=
+  Obj.evaluate1_grid_nonrational hb hs hr tol us hdom
+
+/-- Non-rational surface. -/
+theorem C02_tensor_eval_obj_surface {o : Obj K} {b1 b2 : Basis K} (hb : o.bases = #[b1, b2])
+    {n1 n2 nc : ℕ} (hs : o.cps.shape = [n1, n2, nc]) (hr : o.rational = false) (tol : K)
+    (us vs : List K) (hdom : ¬ o.OutOfDomain tol [us, vs]) :
+    ∃ res, o.evaluate tol [us, vs] true = .ok res ∧
+      res.shape = [us.length, vs.length, nc] ∧ res.data.size = us.length * vs.length * nc ∧
+      ∀ i1 i2 c, i1 < us.length → i2 < vs.length → c < nc →
+        res.get ((i1 * vs.length + i2) * nc + c)
+          = ∑ j1 ∈ Finset.range n1, ∑ j2 ∈ Finset.range n2,
+              b1.rowVal tol (us.getD i1 0) j1 * b2.rowVal tol (vs.getD i2 0) j2
+                * o.cps.get ((j1 * n2 + j2) * nc + c) :=
+  Obj.evaluate2_grid_nonrational hb hs hr tol us vs hdom
+
+/-- Non-rational volume. -/
+theorem C02_tensor_eval_obj_volume {o : Obj K} {b1 b2 b3 : Basis K}
+    (hb : o.bases = #[b1, b2, b3]) {n1 n2 n3 nc : ℕ} (hs : o.cps.shape = [n1, n2, n3, nc])
+    (hr : o.rational = false) (tol : K) (us vs ws : List K)
+    (hdom : ¬ o.OutOfDomain tol [us, vs, ws]) :
+    ∃ res, o.evaluate tol [us, vs, ws] true = .ok res ∧
+      res.shape = [us.length, vs.length, ws.length, nc] ∧
+      res.data.size = us.length * vs.length * ws.length * nc ∧
+      ∀ i1 i2 i3 c, i1 < us.length → i2 < vs.length → i3 < ws.length → c < nc →
+        res.get (((i1 * vs.length + i2) * ws.length + i3) * nc + c)
+          = ∑ j1 ∈ Finset.range n1, ∑ j2 ∈ Finset.range n2, ∑ j3 ∈ Finset.range n3,
+              b1.rowVal tol (us.getD i1 0) j1 * b2.rowVal tol (vs.getD i2 0) j2
+                * b3.rowVal tol (ws.getD i3 0) j3
+                * o.cps.get (((j1 * n2 + j2) * n3 + j3) * nc + c) :=
+  Obj.evaluate3_grid_nonrational hb hs hr tol us vs ws hdom
+
+/-- Rational curve: the same rows in numerator and denominator (no validity assumption; a zero
+denominator gives Lean's `x / 0 = 0`, see `C02_rational_curve` for positivity). -/
+theorem C02_rational_rows_curve {o : Obj K} {b1 : Basis K} (hb : o.bases = #[b1])
+    {n1 dim : ℕ} (hs : o.cps.shape = [n1, dim + 1]) (hr : o.rational = true) (tol : K)
+    (us : List K) (hdom : ¬ o.OutOfDomain tol [us]) :
+    ∃ res, o.evaluate tol [us] true = .ok res ∧
+      res.shape = [us.length, dim] ∧ res.data.size = us.length * dim ∧
+      ∀ i1 c, i1 < us.length → c < dim →
+        res.get (i1 * dim + c)
+          = (∑ j1 ∈ Finset.range n1,
+              b1.rowVal tol (us.getD i1 0) j1 * o.cps.get (j1 * (dim + 1) + c))
+            / (∑ j1 ∈ Finset.range n1,
+              b1.rowVal tol (us.getD i1 0) j1 * o.cps.get (j1 * (dim + 1) + dim)) :=
+  Obj.evaluate1_grid_rational hb hs hr tol us hdom
+
+/-- Rational surface: the same rows in numerator and denominator. -/
+theorem C02_rational_rows_surface {o : Obj K} {b1 b2 : Basis K} (hb : o.bases = #[b1, b2])
+    {n1 n2 dim : ℕ} (hs : o.cps.shape = [n1, n2, dim + 1]) (hr : o.rational = true) (tol : K)
+    (us vs : List K) (hdom : ¬ o.OutOfDomain tol [us, vs]) :
+    ∃ res, o.evaluate tol [us, vs] true = .ok res ∧
+      res.shape = [us.length, vs.length, dim] ∧ res.data.size = us.length * vs.length * dim ∧
+      ∀ i1 i2 c, i1 < us.length → i2 < vs.length → c < dim →
+        res.get ((i1 * vs.length + i2) * dim + c)
+          = (∑ j1 ∈ Finset.range n1, ∑ j2 ∈ Finset.range n2,
+              b1.rowVal tol (us.getD i1 0) j1 * b2.rowVal tol (vs.getD i2 0) j2
+                * o.cps.get ((j1 * n2 + j2) * (dim + 1) + c))
+            / (∑ j1 ∈ Finset.range n1, ∑ j2 ∈ Finset.range n2,
+              b1.rowVal tol (us.getD i1 0) j1 * b2.rowVal tol (vs.getD i2 0) j2
+                * o.cps.get ((j1 * n2 + j2) * (dim + 1) + dim)) :=
+  Obj.evaluate2_grid_rational hb hs hr tol us vs hdom
+
+/-- Rational volume: the same rows in numerator and denominator. -/
+theorem C02_rational_rows_volume {o : Obj K} {b1 b2 b3 : Basis K}
+    (hb : o.bases = #[b1, b2, b3]) {n1 n2 n3 dim : ℕ}
+    (hs : o.cps.shape = [n1, n2, n3, dim + 1]) (hr : o.rational = true) (tol : K)
+    (us vs ws : List K) (hdom : ¬ o.OutOfDomain tol [us, vs, ws]) :
+    ∃ res, o.evaluate tol [us, vs, ws] true = .ok res ∧
+      res.shape = [us.length, vs.length, ws.length, dim] ∧
+      res.data.size = us.length * vs.length * ws.length * dim ∧
+      ∀ i1 i2 i3 c, i1 < us.length → i2 < vs.length → i3 < ws.length → c < dim →
+        res.get (((i1 * vs.length + i2) * ws.length + i3) * dim + c)
+          = (∑ j1 ∈ Finset.range n1, ∑ j2 ∈ Finset.range n2, ∑ j3 ∈ Finset.range n3,
+              b1.rowVal tol (us.getD i1 0) j1 * b2.rowVal tol (vs.getD i2 0) j2
+                * b3.rowVal tol (ws.getD i3 0) j3
+                * o.cps.get (((j1 * n2 + j2) * n3 + j3) * (dim + 1) + c))
+            / (∑ j1 ∈ Finset.range n1, ∑ j2 ∈ Finset.range n2, ∑ j3 ∈ Finset.range n3,
+              b1.rowVal tol (us.getD i1 0) j1 * b2.rowVal tol (vs.getD i2 0) j2
+                * b3.rowVal tol (ws.getD i3 0) j3
+                * o.cps.get (((j1 * n2 + j2) * n3 + j3) * (dim + 1) + dim)) :=
+  Obj.evaluate3_grid_rational hb hs hr tol us vs ws hdom
+
+/-! ## 3. `C02_nonrational_is_spline_sum` — with C01: the rows are the specification B-splines -/
+
+omit [IsStrictOrderedRing K] in
+/-- `specRow` of a non-periodic basis: the `j`-th B-spline, right-continuous except at the domain
+end, where it is the limit from inside (`effSide`). -/
+theorem C02_specRow_nonperiodic {b : Basis K} (h : b.periodic = -1) (u : K) (j : ℕ) :
+    b.specRow u j = B (effSide b u true) b.kn (b.order - 1) j u := by
+  unfold Basis.specRow; rw [if_pos h]
+
+/-- `specRow` of a periodic basis: all wrapped images at the wrapped point. -/
+theorem C02_specRow_periodic {b : Basis K} (h : 0 ≤ b.periodic) (u : K) (j : ℕ) :
+    b.specRow u j = ∑ i ∈ (Finset.range b.nAll).filter (fun i => i % b.numFunctions = j),
+      B (effSide b (b.wrap u) true) b.kn (b.order - 1) i (b.wrap u) :=
+  Basis.specRow_periodic h u j
+
+/-- For valid bases and admissible parameters the code's row is the specification row; the rows
+are non-negative and sum to one. -/
+theorem C02_row_is_spec {b : Basis K} (hv : b.Valid) {tol u : K} (htol : 0 < tol)
+    (h : b.Admissible tol u) :
+    (∀ j, j < b.numFunctions → b.rowVal tol u j = b.specRow u j) ∧
+    (∀ j, 0 ≤ b.rowVal tol u j) ∧
+    ∑ j ∈ Finset.range b.numFunctions, b.rowVal tol u j = 1 :=
+  ⟨fun _ hj => Basis.rowVal_eq_specRow hv htol h hj, fun j => Basis.rowVal_nonneg hv htol h j,
+    Basis.rowVal_sum hv htol h⟩
+
+/-- Non-rational curve (periodic or not): `σ(uᵢ)[c] = Σ_j N_j(uᵢ) · P_j[c]`. -/
+theorem C02_nonrational_is_spline_sum_curve {o : Obj K} {b1 : Basis K} (hb : o.bases = #[b1])
+    (hv1 : b1.Valid) {nc : ℕ} (hs : o.cps.shape = [b1.numFunctions, nc])
+    (hr : o.rational = false) {tol : K} (htol : 0 < tol) {us : List K}
+    (hus : ∀ u ∈ us, b1.Admissible tol u) :
+    ∃ res, o.evaluate tol [us] true = .ok res ∧
+      res.shape = [us.length, nc] ∧ res.data.size = us.length * nc ∧
+      ∀ i1 c, i1 < us.length → c < nc →
+        res.get (i1 * nc + c)
+          = ∑ j1 ∈ Finset.range b1.numFunctions,
+              b1.specRow (us.getD i1 0) j1 * o.cps.get (j1 * nc + c) :=
+  Obj.evaluate1_spec_nonrational hb hv1 hs hr htol hus
+
+/-- Non-rational surface (each direction periodic or not):
+`σ(uᵢ, vₖ)[c] = Σ_{j₁} Σ_{j₂} N_{j₁}(uᵢ) · M_{j₂}(vₖ) · P_{j₁ j₂}[c]`. -/
+theorem C02_nonrational_is_spline_sum_surface {o : Obj K} {b1 b2 : Basis K}
+    (hb : o.bases = #[b1, b2]) (hv1 : b1.Valid) (hv2 : b2.Valid) {nc : ℕ}
+    (hs : o.cps.shape = [b1.numFunctions, b2.numFunctions, nc]) (hr : o.rational = false)
+    {tol : K} (htol : 0 < tol) {us vs : List K}
+    (hus : ∀ u ∈ us, b1.Admissible tol u) (hvs : ∀ v ∈ vs, b2.Admissible tol v) :
+    ∃ res, o.evaluate tol [us, vs] true = .ok res ∧
+      res.shape = [us.length, vs.length, nc] ∧ res.data.size = us.length * vs.length * nc ∧
+      ∀ i1 i2 c, i1 < us.length → i2 < vs.length → c < nc →
+        res.get ((i1 * vs.length + i2) * nc + c)
+          = ∑ j1 ∈ Finset.range b1.numFunctions, ∑ j2 ∈ Finset.range b2.numFunctions,
+              b1.specRow (us.getD i1 0) j1 * b2.specRow (vs.getD i2 0) j2
+                * o.cps.get ((j1 * b2.numFunctions + j2) * nc + c) :=
+  Obj.evaluate2_spec_nonrational hb hv1 hv2 hs hr htol hus hvs
+
+/-- Non-rational volume. -/
+theorem C02_nonrational_is_spline_sum_volume {o : Obj K} {b1 b2 b3 : Basis K}
+    (hb : o.bases = #[b1, b2, b3]) (hv1 : b1.Valid) (hv2 : b2.Valid) (hv3 : b3.Valid) {nc : ℕ}
+    (hs : o.cps.shape = [b1.numFunctions, b2.numFunctions, b3.numFunctions, nc])
+    (hr : o.rational = false) {tol : K} (htol : 0 < tol) {us vs ws : List K}
+    (hus : ∀ u ∈ us, b1.Admissible tol u) (hvs : ∀ v ∈ vs, b2.Admissible tol v)
+    (hws : ∀ w ∈ ws, b3.Admissible tol w) :
+    ∃ res, o.evaluate tol [us, vs, ws] true = .ok res ∧
+      res.shape = [us.length, vs.length, ws.length, nc] ∧
+      res.data.size = us.length * vs.length * ws.length * nc ∧
+      ∀ i1 i2 i3 c, i1 < us.length → i2 < vs.length → i3 < ws.length → c < nc →
+        res.get (((i1 * vs.length + i2) * ws.length + i3) * nc + c)
+          = ∑ j1 ∈ Finset.range b1.numFunctions, ∑ j2 ∈ Finset.range b2.numFunctions,
+            ∑ j3 ∈ Finset.range b3.numFunctions,
+              b1.specRow (us.getD i1 0) j1 * b2.specRow (vs.getD i2 0) j2
+                * b3.specRow (ws.getD i3 0) j3
+                * o.cps.get (((j1 * b2.numFunctions + j2) * b3.numFunctions + j3) * nc + c) :=
+  Obj.evaluate3_spec_nonrational hb hv1 hv2 hv3 hs hr htol hus hvs hws
+
+/-- Non-periodic non-rational curve, spelled out with the specification `B` and without the
+auxiliary vocabulary: exact in-domain parameters. -/
+theorem C02_nonrational_is_spline_sum_curve_open {o : Obj K} {b1 : Basis K}
+    (hb : o.bases = #[b1]) (hv1 : b1.Valid) (hp1 : b1.periodic = -1) {nc : ℕ}
+    (hs : o.cps.shape = [b1.numFunctions, nc]) (hr : o.rational = false) {tol : K}
+    (htol : 0 < tol) {us : List K}
+    (hus : ∀ u ∈ us, b1.ExactAt tol u ∧ b1.start ≤ u ∧ u ≤ b1.stop) :
+    ∃ res, o.evaluate tol [us] true = .ok res ∧
+      res.shape = [us.length, nc] ∧ res.data.size = us.length * nc ∧
+      ∀ i1 c, i1 < us.length → c < nc →
+        res.get (i1 * nc + c)
+          = ∑ j1 ∈ Finset.range b1.numFunctions,
+              B (effSide b1 (us.getD i1 0) true) b1.kn (b1.order - 1) j1 (us.getD i1 0)
+                * o.cps.get (j1 * nc + c) := by
+  obtain ⟨res, h1, h2, h3, h4⟩ := Obj.evaluate1_spec_nonrational hb hv1 hs hr htol
+    (fun u hu => ⟨(hus u hu).1, fun _ => (hus u hu).2,
+      fun h => by rw [hp1] at h; exact absurd h (by decide)⟩)
+  refine ⟨res, h1, h2, h3, fun i1 c hi hc => ?_⟩
+  rw [h4 i1 c hi hc]
+  exact Finset.sum_congr rfl (fun j _ => by rw [Basis.specRow_nonperiodic hp1])
+
+/-- Non-periodic non-rational surface, spelled out with the specification `B`. -/
+theorem C02_nonrational_is_spline_sum_surface_open {o : Obj K} {b1 b2 : Basis K}
+    (hb : o.bases = #[b1, b2]) (hv1 : b1.Valid) (hv2 : b2.Valid) (hp1 : b1.periodic = -1)
+    (hp2 : b2.periodic = -1) {nc : ℕ}
+    (hs : o.cps.shape = [b1.numFunctions, b2.numFunctions, nc]) (hr : o.rational = false)
+    {tol : K} (htol : 0 < tol) {us vs : List K}
+    (hus : ∀ u ∈ us, b1.ExactAt tol u ∧ b1.start ≤ u ∧ u ≤ b1.stop)
+    (hvs : ∀ v ∈ vs, b2.ExactAt tol v ∧ b2.start ≤ v ∧ v ≤ b2.stop) :
+    ∃ res, o.evaluate tol [us, vs] true = .ok res ∧
+      res.shape = [us.length, vs.length, nc] ∧ res.data.size = us.length * vs.length * nc ∧
+      ∀ i1 i2 c, i1 < us.length → i2 < vs.length → c < nc →
+        res.get ((i1 * vs.length + i2) * nc + c)
+          = ∑ j1 ∈ Finset.range b1.numFunctions, ∑ j2 ∈ Finset.range b2.numFunctions,
+              B (effSide b1 (us.getD i1 0) true) b1.kn (b1.order - 1) j1 (us.getD i1 0)
+                * B (effSide b2 (vs.getD i2 0) true) b2.kn (b2.order - 1) j2 (vs.getD i2 0)
+                * o.cps.get ((j1 * b2.numFunctions + j2) * nc + c) := by
+  obtain ⟨res, h1, h2, h3, h4⟩ := Obj.evaluate2_spec_nonrational hb hv1 hv2 hs hr htol
+    (fun u hu => ⟨(hus u hu).1, fun _ => (hus u hu).2,
+      fun h => by rw [hp1] at h; exact absurd h (by decide)⟩)
+    (fun v hv => ⟨(hvs v hv).1, fun _ => (hvs v hv).2,
+      fun h => by rw [hp2] at h; exact absurd h (by decide)⟩)
+  refine ⟨res, h1, h2, h3, fun i1 i2 c hi1 hi2 hc => ?_⟩
+  rw [h4 i1 i2 c hi1 hi2 hc]
+  exact Finset.sum_congr rfl (fun j1 _ => Finset.sum_congr rfl (fun j2 _ => by
+    rw [Basis.specRow_nonperiodic hp1, Basis.specRow_nonperiodic hp2]))
+
+/-- Arbitrary (non-exact) parameters: if distinct knot values are at least `tol` apart, evaluating
+is evaluating at the snapped parameters (curves; every calling form, errors included) … -/
+theorem C02_evaluate_snap_curve {o : Obj K} {b1 : Basis K} (hb : o.bases = #[b1])
+    (hv1 : b1.Valid) {tol : K} (htol : 0 < tol) (hs1 : b1.Separated tol) (us : List K)
+    (tensor : Bool) :
+    o.evaluate tol [us] tensor = o.evaluate tol [us.map (snap b1 tol)] tensor :=
+  Obj.evaluate1_snap hb hv1 htol hs1 us tensor
+
+/-- … surfaces … -/
+theorem C02_evaluate_snap_surface {o : Obj K} {b1 b2 : Basis K} (hb : o.bases = #[b1, b2])
+    (hv1 : b1.Valid) (hv2 : b2.Valid) {tol : K} (htol : 0 < tol)
+    (hs1 : b1.Separated tol) (hs2 : b2.Separated tol) (us vs : List K) (tensor : Bool) :
+    o.evaluate tol [us, vs] tensor
+      = o.evaluate tol [us.map (snap b1 tol), vs.map (snap b2 tol)] tensor :=
+  Obj.evaluate2_snap hb hv1 hv2 htol hs1 hs2 us vs tensor
+
+/-- … volumes … -/
+theorem C02_evaluate_snap_volume {o : Obj K} {b1 b2 b3 : Basis K} (hb : o.bases = #[b1, b2, b3])
+    (hv1 : b1.Valid) (hv2 : b2.Valid) (hv3 : b3.Valid) {tol : K} (htol : 0 < tol)
+    (hs1 : b1.Separated tol) (hs2 : b2.Separated tol) (hs3 : b3.Separated tol)
+    (us vs ws : List K) (tensor : Bool) :
+    o.evaluate tol [us, vs, ws] tensor
+      = o.evaluate tol [us.map (snap b1 tol), vs.map (snap b2 tol), ws.map (snap b3 tol)]
+          tensor :=
+  Obj.evaluate3_snap hb hv1 hv2 hv3 htol hs1 hs2 hs3 us vs ws tensor
+
+/-- … and for a non-periodic basis a snapped parameter inside the domain is admissible, so all
+theorems of this file apply to the snapped parameters. -/
+theorem C02_snapped_admissible {b : Basis K} (hv : b.Valid) (hper : b.periodic = -1) {tol : K}
+    (hsep : b.Separated tol) {u : K} (h1 : b.start ≤ snap b tol u) (h2 : snap b tol u ≤ b.stop) :
+    b.Admissible tol (snap b tol u) :=
+  Basis.admissible_snap hv hper hsep h1 h2
+
+/-! ## 4. `C02_rational` — NURBS quotient with positive denominators -/
+
+/-- Rational curve, all weights positive: every denominator is positive (no division by zero) and
+the result is `Σ_j N_j P_j[c] / Σ_j N_j w_j` with the same basis values. -/
+theorem C02_rational_curve {o : Obj K} {b1 : Basis K} (hb : o.bases = #[b1])
+    (hv1 : b1.Valid) {dim : ℕ} (hs : o.cps.shape = [b1.numFunctions, dim + 1])
+    (hr : o.rational = true)
+    (hw : ∀ j1, j1 < b1.numFunctions → 0 < o.cps.get (j1 * (dim + 1) + dim))
+    {tol : K} (htol : 0 < tol) {us : List K} (hus : ∀ u ∈ us, b1.Admissible tol u) :
+    ∃ res, o.evaluate tol [us] true = .ok res ∧
+      res.shape = [us.length, dim] ∧ res.data.size = us.length * dim ∧
+      ∀ i1, i1 < us.length →
+        0 < (∑ j1 ∈ Finset.range b1.numFunctions,
+              b1.specRow (us.getD i1 0) j1 * o.cps.get (j1 * (dim + 1) + dim)) ∧
+        ∀ c, c < dim →
+          res.get (i1 * dim + c)
+            = (∑ j1 ∈ Finset.range b1.numFunctions,
+                b1.specRow (us.getD i1 0) j1 * o.cps.get (j1 * (dim + 1) + c))
+              / (∑ j1 ∈ Finset.range b1.numFunctions,
+                b1.specRow (us.getD i1 0) j1 * o.cps.get (j1 * (dim + 1) + dim)) :=
+  Obj.evaluate1_spec_rational hb hv1 hs hr hw htol hus
+
+/-- Rational surface, all weights positive. -/
+theorem C02_rational_surface {o : Obj K} {b1 b2 : Basis K} (hb : o.bases = #[b1, b2])
+    (hv1 : b1.Valid) (hv2 : b2.Valid) {dim : ℕ}
+    (hs : o.cps.shape = [b1.numFunctions, b2.numFunctions, dim + 1]) (hr : o.rational = true)
+    (hw : ∀ j1 j2, j1 < b1.numFunctions → j2 < b2.numFunctions →
+      0 < o.cps.get ((j1 * b2.numFunctions + j2) * (dim + 1) + dim))
+    {tol : K} (htol : 0 < tol) {us vs : List K}
+    (hus : ∀ u ∈ us, b1.Admissible tol u) (hvs : ∀ v ∈ vs, b2.Admissible tol v) :
+    ∃ res, o.evaluate tol [us, vs] true = .ok res ∧
+      res.shape = [us.length, vs.length, dim] ∧ res.data.size = us.length * vs.length * dim ∧
+      ∀ i1 i2, i1 < us.length → i2 < vs.length →
+        0 < (∑ j1 ∈ Finset.range b1.numFunctions, ∑ j2 ∈ Finset.range b2.numFunctions,
+              b1.specRow (us.getD i1 0) j1 * b2.specRow (vs.getD i2 0) j2
+                * o.cps.get ((j1 * b2.numFunctions + j2) * (dim + 1) + dim)) ∧
+        ∀ c, c < dim →
+          res.get ((i1 * vs.length + i2) * dim + c)
+            = (∑ j1 ∈ Finset.range b1.numFunctions, ∑ j2 ∈ Finset.range b2.numFunctions,
+                b1.specRow (us.getD i1 0) j1 * b2.specRow (vs.getD i2 0) j2
+                  * o.cps.get ((j1 * b2.numFunctions + j2) * (dim + 1) + c))
+              / (∑ j1 ∈ Finset.range b1.numFunctions, ∑ j2 ∈ Finset.range b2.numFunctions,
+                b1.specRow (us.getD i1 0) j1 * b2.specRow (vs.getD i2 0) j2
+                  * o.cps.get ((j1 * b2.numFunctions + j2) * (dim + 1) + dim)) :=
+  Obj.evaluate2_spec_rational hb hv1 hv2 hs hr hw htol hus hvs
+
+/-- Rational volume, all weights positive. -/
+theorem C02_rational_volume {o : Obj K} {b1 b2 b3 : Basis K}
+    (hb : o.bases = #[b1, b2, b3]) (hv1 : b1.Valid) (hv2 : b2.Valid) (hv3 : b3.Valid) {dim : ℕ}
+    (hs : o.cps.shape = [b1.numFunctions, b2.numFunctions, b3.numFunctions, dim + 1])
+    (hr : o.rational = true)
+    (hw : ∀ j1 j2 j3, j1 < b1.numFunctions → j2 < b2.numFunctions → j3 < b3.numFunctions →
+      0 < o.cps.get (((j1 * b2.numFunctions + j2) * b3.numFunctions + j3) * (dim + 1) + dim))
+    {tol : K} (htol : 0 < tol) {us vs ws : List K}
+    (hus : ∀ u ∈ us, b1.Admissible tol u) (hvs : ∀ v ∈ vs, b2.Admissible tol v)
+    (hws : ∀ w ∈ ws, b3.Admissible tol w) :
+    ∃ res, o.evaluate tol [us, vs, ws] true = .ok res ∧
+      res.shape = [us.length, vs.length, ws.length, dim] ∧
+      res.data.size = us.length * vs.length * ws.length * dim ∧
+      ∀ i1 i2 i3, i1 < us.length → i2 < vs.length → i3 < ws.length →
+        0 < (∑ j1 ∈ Finset.range b1.numFunctions, ∑ j2 ∈ Finset.range b2.numFunctions,
+            ∑ j3 ∈ Finset.range b3.numFunctions,
+              b1.specRow (us.getD i1 0) j1 * b2.specRow (vs.getD i2 0) j2
+                * b3.specRow (ws.getD i3 0) j3
+                * o.cps.get (((j1 * b2.numFunctions + j2) * b3.numFunctions + j3) * (dim + 1)
+                    + dim)) ∧
+        ∀ c, c < dim →
+          res.get (((i1 * vs.length + i2) * ws.length + i3) * dim + c)
+            = (∑ j1 ∈ Finset.range b1.numFunctions, ∑ j2 ∈ Finset.range b2.numFunctions,
+                ∑ j3 ∈ Finset.range b3.numFunctions,
+                  b1.specRow (us.getD i1 0) j1 * b2.specRow (vs.getD i2 0) j2
+                    * b3.specRow (ws.getD i3 0) j3
+                    * o.cps.get (((j1 * b2.numFunctions + j2) * b3.numFunctions + j3) * (dim + 1)
+                        + c))
+              / (∑ j1 ∈ Finset.range b1.numFunctions, ∑ j2 ∈ Finset.range b2.numFunctions,
+                ∑ j3 ∈ Finset.range b3.numFunctions,
+                  b1.specRow (us.getD i1 0) j1 * b2.specRow (vs.getD i2 0) j2
+                    * b3.specRow (ws.getD i3 0) j3
+                    * o.cps.get (((j1 * b2.numFunctions + j2) * b3.numFunctions + j3) * (dim + 1)
+                        + dim)) :=
+  Obj.evaluate3_spec_rational hb hv1 hv2 hv3 hs hr hw htol hus hvs hws
+
+/-! ## `C02_periodic_wraps` — periodic directions wrap by the period -/
+
+/-- The specification row of a periodic basis depends on the parameter only modulo the period
+(the domain end `stop` itself is evaluated as the left limit, hence the two exclusions). -/
+theorem C02_specRow_add_period {b : Basis K} (hv : b.Valid) (hper : 0 ≤ b.periodic) (u : K)
+    (m : ℤ) (h1 : u ≠ b.stop) (h2 : u + m * (b.stop - b.start) ≠ b.stop) (j : ℕ) :
+    b.specRow (u + m * (b.stop - b.start)) j = b.specRow u j :=
+  Basis.specRow_add_period hv hper u m h1 h2 j
+
+/-- Curve: shifting every parameter `u` by `m u` whole periods does not change the result of
+`evaluate`, in either calling form (`b.ShiftOK`: nothing is shifted, or the direction is periodic
+and all original and shifted parameters are exact and differ from the domain end). -/
+theorem C02_periodic_wraps_curve {o : Obj K} {b1 : Basis K} (hb : o.bases = #[b1])
+    (hv1 : b1.Valid) {tol : K} (htol : 0 < tol) (us : List K)
+    (m1 : K → ℤ) (h1 : b1.ShiftOK tol us m1) (tensor : Bool) :
+    o.evaluate tol [us.map (fun u => u + m1 u * (b1.stop - b1.start))] tensor
+      = o.evaluate tol [us] tensor :=
+  Obj.evaluate1_periodic_shift hb hv1 htol us m1 h1 tensor
+
+/-- Surface: the same, direction by direction. -/
+theorem C02_periodic_wraps_surface {o : Obj K} {b1 b2 : Basis K} (hb : o.bases = #[b1, b2])
+    (hv1 : b1.Valid) (hv2 : b2.Valid) {tol : K} (htol : 0 < tol) (us vs : List K)
+    (m1 m2 : K → ℤ) (h1 : b1.ShiftOK tol us m1) (h2 : b2.ShiftOK tol vs m2) (tensor : Bool) :
+    o.evaluate tol [us.map (fun u => u + m1 u * (b1.stop - b1.start)),
+                    vs.map (fun v => v + m2 v * (b2.stop - b2.start))] tensor
+      = o.evaluate tol [us, vs] tensor :=
+  Obj.evaluate2_periodic_shift hb hv1 hv2 htol us vs m1 m2 h1 h2 tensor
+
+/-- Volume: the same, direction by direction. -/
+theorem C02_periodic_wraps_volume {o : Obj K} {b1 b2 b3 : Basis K}
+    (hb : o.bases = #[b1, b2, b3]) (hv1 : b1.Valid) (hv2 : b2.Valid) (hv3 : b3.Valid) {tol : K}
+    (htol : 0 < tol) (us vs ws : List K) (m1 m2 m3 : K → ℤ) (h1 : b1.ShiftOK tol us m1)
+    (h2 : b2.ShiftOK tol vs m2) (h3 : b3.ShiftOK tol ws m3) (tensor : Bool) :
+    o.evaluate tol [us.map (fun u => u + m1 u * (b1.stop - b1.start)),
+                    vs.map (fun v => v + m2 v * (b2.stop - b2.start)),
+                    ws.map (fun w => w + m3 w * (b3.stop - b3.start))] tensor
+      = o.evaluate tol [us, vs, ws] tensor :=
+  Obj.evaluate3_periodic_shift hb hv1 hv2 hv3 htol us vs ws m1 m2 m3 h1 h2 h3 tensor
+
+/-! ## 7. `C02_identity_map` — no control points given -/
+
+/-- The model's `greville()` returns the Greville abscissae `ξ_i = (τ_{i+1}+…+τ_{i+p-1})/(p-1)` of
+the specification (order ≥ 2; for order 1 Python divides by zero). -/
+theorem C02_greville {b : Basis K} (hp : 2 ≤ b.order) :
+    b.greville = .ok (Array.ofFn (n := b.numFunctions)
+      (fun i => grevilleAbscissa b.kn (b.order - 1) i.val)) :=
+  Basis.greville_eq b hp
+
+/-- Default curve of a valid non-periodic basis of order ≥ 2: the constructor succeeds, the
+control points are `(ξ_j, 0)`, and evaluation at exact in-domain parameters returns `(u, 0)`. -/
+theorem C02_identity_map_curve (b : Basis K) (hv : b.Valid) (hper : b.periodic = -1)
+    (hp : 2 ≤ b.order) {tol : K} (htol : 0 < tol) {us : List K}
+    (hus : ∀ u ∈ us, b.ExactAt tol u ∧ b.start ≤ u ∧ u ≤ b.stop) :
+    ∃ o res, Obj.default #[b] false = .ok o ∧
+      o.bases = #[b] ∧ o.rational = false ∧ o.cps.shape = [b.numFunctions, 2] ∧
+      (∀ j, j < b.numFunctions →
+        o.cps.get (j * 2 + 0) = grevilleAbscissa b.kn (b.order - 1) j ∧
+        o.cps.get (j * 2 + 1) = 0) ∧
+      o.evaluate tol [us] true = .ok res ∧ res.shape = [us.length, 2] ∧
+      ∀ i, i < us.length → res.get (i * 2 + 0) = us.getD i 0 ∧ res.get (i * 2 + 1) = 0 :=
+  Obj.default_curve_identity b hv hper hp htol hus
+
+/-- Default rational curve: control points `(ξ_j, 0, 1)`; evaluation returns `(u, 0)`. -/
+theorem C02_identity_map_curve_rational (b : Basis K) (hv : b.Valid) (hper : b.periodic = -1)
+    (hp : 2 ≤ b.order) {tol : K} (htol : 0 < tol) {us : List K}
+    (hus : ∀ u ∈ us, b.ExactAt tol u ∧ b.start ≤ u ∧ u ≤ b.stop) :
+    ∃ o res, Obj.default #[b] true = .ok o ∧
+      o.bases = #[b] ∧ o.rational = true ∧ o.cps.shape = [b.numFunctions, 3] ∧
+      (∀ j, j < b.numFunctions →
+        o.cps.get (j * 3 + 0) = grevilleAbscissa b.kn (b.order - 1) j ∧
+        o.cps.get (j * 3 + 1) = 0 ∧ o.cps.get (j * 3 + 2) = 1) ∧
+      o.evaluate tol [us] true = .ok res ∧ res.shape = [us.length, 2] ∧
+      ∀ i, i < us.length → res.get (i * 2 + 0) = us.getD i 0 ∧ res.get (i * 2 + 1) = 0 :=
+  Obj.default_curve_identity_rational b hv hper hp htol hus
+
+/-- Default surface of two valid non-periodic bases of order ≥ 2: control points
+`(ξ¹_{j₁}, ξ²_{j₂})`; evaluation at exact in-domain parameters returns `(u, v)`. -/
+theorem C02_identity_map_surface (b1 b2 : Basis K) (hv1 : b1.Valid) (hv2 : b2.Valid)
+    (hper1 : b1.periodic = -1) (hper2 : b2.periodic = -1) (hp1 : 2 ≤ b1.order)
+    (hp2 : 2 ≤ b2.order) {tol : K} (htol : 0 < tol) {us vs : List K}
+    (hus : ∀ u ∈ us, b1.ExactAt tol u ∧ b1.start ≤ u ∧ u ≤ b1.stop)
+    (hvs : ∀ v ∈ vs, b2.ExactAt tol v ∧ b2.start ≤ v ∧ v ≤ b2.stop) :
+    ∃ o res, Obj.default #[b1, b2] false = .ok o ∧
+      o.bases = #[b1, b2] ∧ o.rational = false ∧
+      o.cps.shape = [b1.numFunctions, b2.numFunctions, 2] ∧
+      (∀ j1 j2, j1 < b1.numFunctions → j2 < b2.numFunctions →
+        o.cps.get ((j1 * b2.numFunctions + j2) * 2 + 0)
+          = grevilleAbscissa b1.kn (b1.order - 1) j1 ∧
+        o.cps.get ((j1 * b2.numFunctions + j2) * 2 + 1)
+          = grevilleAbscissa b2.kn (b2.order - 1) j2) ∧
+      o.evaluate tol [us, vs] true = .ok res ∧ res.shape = [us.length, vs.length, 2] ∧
+      ∀ i1 i2, i1 < us.length → i2 < vs.length →
+        res.get ((i1 * vs.length + i2) * 2 + 0) = us.getD i1 0 ∧
+        res.get ((i1 * vs.length + i2) * 2 + 1) = vs.getD i2 0 :=
+  Obj.default_surface_identity b1 b2 hv1 hv2 hper1 hper2 hp1 hp2 htol hus hvs
+
+omit [LinearOrder K] [IsStrictOrderedRing K] [FloorRing K] in
+/-- Order-1 bases have no Greville points: the constructor without control points raises
+`ZeroDivisionError` (so `2 ≤ order` in `C02_identity_map_*` is necessary). -/
+theorem C02_identity_map_order_one_raises (b : Basis K) (hp : b.order = 1)
+    (hn : 0 < b.numFunctions) (rational : Bool) :
+    Obj.default #[b] rational = .error .zeroDiv := by
+  have hg : b.greville = .error .zeroDiv := by
+    unfold Basis.greville
+    simp only []
+    rw [if_pos ⟨hp, hn⟩]
+  unfold Obj.default
+  simp [List.mapM_cons, hg]
+
+/-! ## 8. `C02_bounding_box` -/
+
+/-- Convex combinations stay between the bounds of the combined values. -/
+theorem C02_convex_combination_bounds (n : ℕ) (w x : ℕ → K) (lo hi : K)
+    (hw : ∀ j, j < n → 0 ≤ w j) (hs : ∑ j ∈ Finset.range n, w j = 1)
+    (hx : ∀ j, j < n → lo ≤ x j ∧ x j ≤ hi) :
+    lo ≤ ∑ j ∈ Finset.range n, w j * x j ∧ ∑ j ∈ Finset.range n, w j * x j ≤ hi :=
+  ⟨le_convex_sum n w x lo hw hs (fun j hj => (hx j hj).1),
+    convex_sum_le n w x hi hw hs (fun j hj => (hx j hj).2)⟩
+
+/-- What `bounding_box()` reports for coordinate `c`: bounds of that coordinate over all control
+points (`pI` = flat point index). -/
+theorem C02_bounding_box_spec (o : Obj K) {c pI : ℕ} (hc : c < o.dimension)
+    (hp : pI < o.cps.size / o.ncomp) :
+    ((o.boundingBox).getD c (0, 0)).1 ≤ o.cps.get (pI * o.ncomp + c) ∧
+      o.cps.get (pI * o.ncomp + c) ≤ ((o.boundingBox).getD c (0, 0)).2 :=
+  boundingBox_spec o hc hp
+
+/-- Non-rational curve: every coordinate of every evaluated point lies in the reported box. -/
+theorem C02_bounding_box_curve {o : Obj K} {b1 : Basis K} (hb : o.bases = #[b1])
+    (hv1 : b1.Valid) {nc : ℕ} (hs : o.cps.shape = [b1.numFunctions, nc])
+    (hr : o.rational = false) {tol : K} (htol : 0 < tol) {us : List K}
+    (hus : ∀ u ∈ us, b1.Admissible tol u) :
+    ∃ res, o.evaluate tol [us] true = .ok res ∧
+      ∀ i1 c, i1 < us.length → c < nc →
+        ((o.boundingBox).getD c (0, 0)).1 ≤ res.get (i1 * nc + c) ∧
+        res.get (i1 * nc + c) ≤ ((o.boundingBox).getD c (0, 0)).2 :=
+  Obj.evaluate1_in_bbox hb hv1 hs hr htol hus
+
+/-- Non-rational surface. -/
+theorem C02_bounding_box_surface {o : Obj K} {b1 b2 : Basis K} (hb : o.bases = #[b1, b2])
+    (hv1 : b1.Valid) (hv2 : b2.Valid) {nc : ℕ}
+    (hs : o.cps.shape = [b1.numFunctions, b2.numFunctions, nc]) (hr : o.rational = false)
+    {tol : K} (htol : 0 < tol) {us vs : List K}
+    (hus : ∀ u ∈ us, b1.Admissible tol u) (hvs : ∀ v ∈ vs, b2.Admissible tol v) :
+    ∃ res, o.evaluate tol [us, vs] true = .ok res ∧
+      ∀ i1 i2 c, i1 < us.length → i2 < vs.length → c < nc →
+        ((o.boundingBox).getD c (0, 0)).1 ≤ res.get ((i1 * vs.length + i2) * nc + c) ∧
+        res.get ((i1 * vs.length + i2) * nc + c) ≤ ((o.boundingBox).getD c (0, 0)).2 :=
+  Obj.evaluate2_in_bbox hb hv1 hv2 hs hr htol hus hvs
+
+/-- Non-rational volume. -/
+theorem C02_bounding_box_volume {o : Obj K} {b1 b2 b3 : Basis K}
+    (hb : o.bases = #[b1, b2, b3]) (hv1 : b1.Valid) (hv2 : b2.Valid) (hv3 : b3.Valid) {nc : ℕ}
+    (hs : o.cps.shape = [b1.numFunctions, b2.numFunctions, b3.numFunctions, nc])
+    (hr : o.rational = false) {tol : K} (htol : 0 < tol) {us vs ws : List K}
+    (hus : ∀ u ∈ us, b1.Admissible tol u) (hvs : ∀ v ∈ vs, b2.Admissible tol v)
+    (hws : ∀ w ∈ ws, b3.Admissible tol w) :
+    ∃ res, o.evaluate tol [us, vs, ws] true = .ok res ∧
+      ∀ i1 i2 i3 c, i1 < us.length → i2 < vs.length → i3 < ws.length → c < nc →
+        ((o.boundingBox).getD c (0, 0)).1
+            ≤ res.get (((i1 * vs.length + i2) * ws.length + i3) * nc + c) ∧
+        res.get (((i1 * vs.length + i2) * ws.length + i3) * nc + c)
+            ≤ ((o.boundingBox).getD c (0, 0)).2 :=
+  Obj.evaluate3_in_bbox hb hv1 hv2 hv3 hs hr htol hus hvs hws
+
+/-! ## Non-vacuity: concrete objects over `ℚ` meeting the hypotheses -/
+
+/-- Linear basis on `[0,1]` (two functions). -/
+def C02_exLin : Basis ℚ := ⟨2, #[0, 0, 1, 1], -1⟩
+
+theorem C02_exLin_valid : C02_exLin.Valid where
+  order_pos := by decide
+  size_ge := by decide
+  sorted := by
+    intro i hi
+    have hi' : i + 1 < 4 := hi
+    have hi'' : i < 3 := by omega
+    interval_cases i <;> norm_num [Basis.kn, C02_exLin]
+  periodic_ge := by decide
+  periodic_le := by decide
+  start_lt_stop := by norm_num [Basis.start, Basis.stop, Basis.kn, C02_exLin]
+  ghosts := fun h => absurd h (by decide)
+
+theorem C02_exLin_start : C02_exLin.start = 0 := by norm_num [Basis.start, Basis.kn, C02_exLin]
+theorem C02_exLin_stop : C02_exLin.stop = 1 := by norm_num [Basis.stop, Basis.kn, C02_exLin]
+
+theorem C02_exLin_exact_half : C02_exLin.ExactAt (1/1000) (1/2) := by
+  intro i hi
+  have hi' : i < 4 := hi
+  interval_cases i <;> norm_num [Basis.kn, C02_exLin, abs_of_nonneg, abs_of_neg]
+
+theorem C02_exLin_exact_one : C02_exLin.ExactAt (1/1000) 1 := by
+  intro i hi
+  have hi' : i < 4 := hi
+  interval_cases i <;> norm_num [Basis.kn, C02_exLin, abs_of_nonneg, abs_of_neg]
+
+theorem C02_exLin_adm : ∀ u ∈ [(1/2 : ℚ), 1], C02_exLin.Admissible (1/1000) u := by
+  intro u hu
+  simp only [List.mem_cons, List.not_mem_nil, or_false] at hu
+  rcases hu with rfl | rfl
+  · exact ⟨C02_exLin_exact_half, fun _ => by rw [C02_exLin_start, C02_exLin_stop]; norm_num,
+      fun h => absurd h (by decide)⟩
+  · exact ⟨C02_exLin_exact_one, fun _ => by rw [C02_exLin_start, C02_exLin_stop]; norm_num,
+      fun h => absurd h (by decide)⟩
+
+theorem C02_exOpen_adm : ∀ u ∈ [(1/2 : ℚ), 3], C01_exOpen.Admissible (1/1000) u := by
+  intro u hu
+  simp only [List.mem_cons, List.not_mem_nil, or_false] at hu
+  rcases hu with rfl | rfl
+  · exact ⟨C01_exOpen_exact_half, fun _ => by rw [C01_exOpen_start, C01_exOpen_stop]; norm_num,
+      fun h => absurd h (by decide)⟩
+  · exact ⟨C01_exOpen_exact_stop, fun _ => by rw [C01_exOpen_start, C01_exOpen_stop]; norm_num,
+      fun h => absurd h (by decide)⟩
+
+theorem C02_exPer_adm : ∀ u ∈ [(7/2 : ℚ)], C01_exPer.Admissible (1/1000) u := by
+  intro u hu
+  simp only [List.mem_cons, List.not_mem_nil, or_false] at hu
+  subst hu
+  exact ⟨C01_exPer_exact_seven_halves, fun h => absurd h (by decide),
+    fun _ => by rw [C01_exPer_wrap]; exact C01_exPer_exact_half⟩
+
+/-- Non-rational quadratic curve in the plane (6 control points). -/
+def C02_exCurve : Obj ℚ :=
+  ⟨#[C01_exOpen], ⟨[6, 2], #[0,0, 1,2, 2,1, 3,3, 4,0, 5,1]⟩, false⟩
+
+/-- Rational quadratic curve in the plane (6 control points, weights 1,2,1,1,3,1). -/
+def C02_exCurveRat : Obj ℚ :=
+  ⟨#[C01_exOpen], ⟨[6, 3], #[0,0,1, 1,2,2, 2,1,1, 3,3,1, 4,0,3, 5,1,1]⟩, true⟩
+
+/-- Periodic non-rational curve (4 control points). -/
+def C02_exCurvePer : Obj ℚ := ⟨#[C01_exPer], ⟨[4, 2], #[0,0, 1,0, 1,1, 0,1]⟩, false⟩
+
+/-- Bilinear surfaces (2 × 2 control points), non-rational in 3-space and rational in the plane. -/
+def C02_exSurf : Obj ℚ :=
+  ⟨#[C02_exLin, C02_exLin], ⟨[2, 2, 3], #[0,0,0, 0,1,1, 1,0,2, 1,1,5]⟩, false⟩
+
+def C02_exSurfRat : Obj ℚ :=
+  ⟨#[C02_exLin, C02_exLin], ⟨[2, 2, 3], #[0,0,1, 0,1,2, 1,0,1, 2,2,2]⟩, true⟩
+
+/-- Trilinear volumes (2 × 2 × 2 control points). -/
+def C02_exVol : Obj ℚ :=
+  ⟨#[C02_exLin, C02_exLin, C02_exLin],
+    ⟨[2, 2, 2, 1], #[0, 1, 2, 3, 4, 5, 6, 7]⟩, false⟩
+
+def C02_exVolRat : Obj ℚ :=
+  ⟨#[C02_exLin, C02_exLin, C02_exLin],
+    ⟨[2, 2, 2, 2], #[0,1, 1,1, 2,2, 3,1, 4,1, 5,3, 6,1, 7,1]⟩, true⟩
+
+/-- C02_tensor_eval_surface / C02_pointwise_is_diagonal_surface (array level). -/
+example := C02_tensor_eval_surface (K := ℚ) #[#[1, 2], #[3, 4]] #[#[1, 0]] ⟨[2, 1, 1], #[5, 6]⟩ rfl
+
+example : (Obj.contractPointwise [#[#[1, 2], #[3, 4]], #[#[1], #[2]]]
+      (⟨[2, 1, 1], #[5, 6]⟩ : Tensor ℚ) 2).get (1 * 1 + 0)
+    = (Obj.contractGrid [#[#[1, 2], #[3, 4]], #[#[1], #[2]]]
+      (⟨[2, 1, 1], #[5, 6]⟩ : Tensor ℚ)).get ((1 * 2 + 1) * 1 + 0) :=
+  C02_pointwise_is_diagonal_surface _ _ _ 2 rfl (by decide) (by decide) (by decide) (by decide)
+
+/-- C02_outside_raises: the parameter `4` is outside `[0, 3]`. -/
+example : C02_exCurve.evaluate (1/1000) [[4]] true = .error .value := by
+  rw [C02_outside_raises]
+  right
+  refine ⟨(C01_exOpen, [4]), by simp [C02_exCurve], by decide, 4, by simp, Or.inr ?_⟩
+  rw [snap_of_exact _ (by norm_num) C01_exOpen_exact_four, C01_exOpen_stop]
+  norm_num
+
+/-- C02_outside_raises: `tensor=False` with lists of different lengths. -/
+example : C02_exSurf.evaluate (1/1000) [[1/2], [1/2, 1]] false = .error .value := by
+  rw [C02_outside_raises]
+  left
+  exact ⟨rfl, by decide⟩
+
+/-- C02_nonrational_is_spline_sum_curve / _curve_open / C02_bounding_box_curve. -/
+example := C02_nonrational_is_spline_sum_curve (o := C02_exCurve) rfl C01_exOpen_valid
+  (nc := 2) rfl rfl (tol := 1/1000) (by norm_num) C02_exOpen_adm
+
+example := C02_nonrational_is_spline_sum_curve_open (o := C02_exCurve) rfl C01_exOpen_valid rfl
+  (nc := 2) rfl rfl (tol := 1/1000) (by norm_num) (us := [1/2, 3])
+  (fun u hu => ⟨(C02_exOpen_adm u hu).1, (C02_exOpen_adm u hu).2.1 rfl⟩)
+
+example := C02_bounding_box_curve (o := C02_exCurve) rfl C01_exOpen_valid
+  (nc := 2) rfl rfl (tol := 1/1000) (by norm_num) C02_exOpen_adm
+
+/-- Periodic curve evaluated outside `[start, stop]`. -/
+example := C02_nonrational_is_spline_sum_curve (o := C02_exCurvePer) rfl C01_exPer_valid
+  (nc := 2) rfl rfl (tol := 1/1000) (by norm_num) C02_exPer_adm
+
+/-- C02_rational_curve: all weights positive. -/
+example := C02_rational_curve (o := C02_exCurveRat) rfl C01_exOpen_valid (dim := 2) rfl rfl
+  (by
+    intro j hj
+    have hj' : j < 6 := hj
+    interval_cases j <;> norm_num [Tensor.get, C02_exCurveRat])
+  (tol := 1/1000) (by norm_num) C02_exOpen_adm
+
+/-- Surfaces. -/
+example := C02_nonrational_is_spline_sum_surface (o := C02_exSurf) rfl C02_exLin_valid
+  C02_exLin_valid (nc := 3) rfl rfl (tol := 1/1000) (by norm_num) C02_exLin_adm C02_exLin_adm
+
+example := C02_bounding_box_surface (o := C02_exSurf) rfl C02_exLin_valid
+  C02_exLin_valid (nc := 3) rfl rfl (tol := 1/1000) (by norm_num) C02_exLin_adm C02_exLin_adm
+
+example := C02_rational_surface (o := C02_exSurfRat) rfl C02_exLin_valid C02_exLin_valid
+  (dim := 2) rfl rfl
+  (by
+    intro j1 j2 h1 h2
+    have h1' : j1 < 2 := h1
+    have h2' : j2 < 2 := h2
+    interval_cases j1 <;> interval_cases j2 <;>
+      norm_num [Tensor.get, C02_exSurfRat, Basis.numFunctions, C02_exLin])
+  (tol := 1/1000) (by norm_num) C02_exLin_adm C02_exLin_adm
+
+/-- Volumes. -/
+example := C02_nonrational_is_spline_sum_volume (o := C02_exVol) rfl C02_exLin_valid
+  C02_exLin_valid C02_exLin_valid (nc := 1) rfl rfl (tol := 1/1000) (by norm_num)
+  C02_exLin_adm C02_exLin_adm C02_exLin_adm
+
+example := C02_bounding_box_volume (o := C02_exVol) rfl C02_exLin_valid
+  C02_exLin_valid C02_exLin_valid (nc := 1) rfl rfl (tol := 1/1000) (by norm_num)
+  C02_exLin_adm C02_exLin_adm C02_exLin_adm
+
+example := C02_rational_volume (o := C02_exVolRat) rfl C02_exLin_valid C02_exLin_valid
+  C02_exLin_valid (dim := 1) rfl rfl
+  (by
+    intro j1 j2 j3 h1 h2 h3
+    have h1' : j1 < 2 := h1
+    have h2' : j2 < 2 := h2
+    have h3' : j3 < 2 := h3
+    interval_cases j1 <;> interval_cases j2 <;> interval_cases j3 <;>
+      norm_num [Tensor.get, C02_exVolRat, Basis.numFunctions, C02_exLin])
+  (tol := 1/1000) (by norm_num) C02_exLin_adm C02_exLin_adm C02_exLin_adm
+
+/-- C02_pointwise_is_diagonal_obj_surface (rational object, two points). -/
+example := C02_pointwise_is_diagonal_obj_surface (o := C02_exSurfRat) rfl (n1 := 2) (n2 := 2)
+  (nc := 3) rfl (fun _ => by decide) (1/1000) [1/2, 1] [1/2, 1] rfl
+  (Obj.not_outOfDomain2 rfl C02_exLin_valid C02_exLin_valid (by norm_num) C02_exLin_adm
+    C02_exLin_adm)
+
+/-- C02_tensor_eval_obj_curve / C02_rational_rows_curve. -/
+example := C02_tensor_eval_obj_curve (o := C02_exCurve) rfl (n1 := 6) (nc := 2) rfl rfl (1/1000)
+  [1/2, 3] (Obj.not_outOfDomain1 rfl C01_exOpen_valid (by norm_num) C02_exOpen_adm)
+
+example := C02_rational_rows_curve (o := C02_exCurveRat) rfl (n1 := 6) (dim := 2) rfl rfl (1/1000)
+  [1/2, 3] (Obj.not_outOfDomain1 rfl C01_exOpen_valid (by norm_num) C02_exOpen_adm)
+
+/-- C02_evaluate_snap_curve / C02_snapped_admissible: separated knots. -/
+example := C02_evaluate_snap_curve (o := C02_exCurve) rfl C01_exOpen_valid
+  (tol := 1/1000) (by norm_num) C01_exOpen_separated [1/3, 2] true
+
+/-- C02_periodic_wraps_curve: `1/2 + 1·T = 7/2`. -/
+example : C02_exCurvePer.evaluate (1/1000)
+      [[(1/2 : ℚ)].map (fun u => u + ((fun _ => 1 : ℚ → ℤ) u : ℚ)
+        * (C01_exPer.stop - C01_exPer.start))] true
+    = C02_exCurvePer.evaluate (1/1000) [[1/2]] true :=
+  C02_periodic_wraps_curve (o := C02_exCurvePer) rfl C01_exPer_valid (by norm_num) [1/2]
+    (fun _ => 1)
+    (Or.inr ⟨by decide, by
+      intro u hu
+      simp only [List.mem_cons, List.not_mem_nil, or_false] at hu
+      subst hu
+      refine ⟨C01_exPer_exact_half, ?_, ?_, ?_⟩
+      · rw [C01_exPer_stop, C01_exPer_start]; norm_num; exact C01_exPer_exact_seven_halves
+      · rw [C01_exPer_stop]; norm_num
+      · rw [C01_exPer_stop, C01_exPer_start]; norm_num⟩) true
+
+/-- C02_periodic_accepts_any_real. -/
+example := C02_periodic_accepts_any_real C02_exCurvePer (1/1000) [[-100, 7/2, 1000]]
+  (by intro b hb; simp [C02_exCurvePer] at hb; subst hb; decide)
+
+/-- C02_identity_map_curve / _rational / _surface. -/
+example := C02_identity_map_curve C01_exOpen C01_exOpen_valid rfl (by decide)
+  (tol := 1/1000) (by norm_num) (us := [1/2, 3])
+  (fun u hu => ⟨(C02_exOpen_adm u hu).1, (C02_exOpen_adm u hu).2.1 rfl⟩)
+
+example := C02_identity_map_curve_rational C01_exOpen C01_exOpen_valid rfl (by decide)
+  (tol := 1/1000) (by norm_num) (us := [1/2, 3])
+  (fun u hu => ⟨(C02_exOpen_adm u hu).1, (C02_exOpen_adm u hu).2.1 rfl⟩)
+
+example := C02_identity_map_surface C01_exOpen C02_exLin C01_exOpen_valid C02_exLin_valid rfl rfl
+  (by decide) (by decide) (tol := 1/1000) (by norm_num) (us := [1/2, 3]) (vs := [1/2, 1])
+  (fun u hu => ⟨(C02_exOpen_adm u hu).1, (C02_exOpen_adm u hu).2.1 rfl⟩)
+  (fun u hu => ⟨(C02_exLin_adm u hu).1, (C02_exLin_adm u hu).2.1 rfl⟩)
+
+/-- C02_identity_map_order_one_raises. -/
+example : Obj.default #[(⟨1, #[0, 1], -1⟩ : Basis ℚ)] false = .error .zeroDiv :=
+  C02_identity_map_order_one_raises _ rfl (by decide) false
